@@ -155,6 +155,6 @@ Print Assumptions c06_artnet_history.
 (* an ArtDmx for universe 0x23 on net 4 carrying 3 slots, then stale bytes: accepted, buffer replaced *)
 Example ex_artnet_handled :
   run ([65; 114; 116; 45; 78; 101; 116; 0; 0; 80] ++ [0; 14; 0; 1; 35; 4; 0; 3] ++ [7; 8; 9] ++ repeat 165 1207)
-      (artnet_handle 21 (mk_an_state 4 35 37 None [] false true 256 None 2 false (None, None) (None, None)))
-  = Done (mk_an_state 4 35 37 (Some [7; 8; 9]) [] false true 256 None 2 false (Some (2, Some [7; 8; 9]), None) (None, None), [EvData 0]).
+      (artnet_handle 21 (mk_an_state 4 35 37 None [] false true 256 None 2 false (None, None) (None, None) None))
+  = Done (mk_an_state 4 35 37 (Some [7; 8; 9]) [] false true 256 None 2 false (Some (2, Some [7; 8; 9]), None) (None, None) None, [EvData 0]).
 Proof. vm_compute. reflexivity. Qed.
